@@ -28,6 +28,8 @@ W_FRAC = "the case splits of floor/ceil/trunc/round/fract against the exact func
 W_WIDE = "the wide-integer From macro (with the renormalisation fix) on EVERY integer of an unsigned and a signed type wider than 2P bits: valid, exact when <= 2P significant bits, else within 2^-2P"
 W_EXPFLOW = "the exp reduction x = y/2 + z with the real double-double operations (y = round of the full value, z = x - y/2): the |z.hi| <= 1/4 assertion, the table index |n| <= 32, the Taylor argument bound and exactness of the split, for EVERY valid x of the window (both signs)"
 W_QUAD = "quadrant(): quotient round(x / (pi/2)) is an integer, `quotient % 4.0` -> i8 never reaches the NAN arm and equals q mod 4, for every valid x of the window (both signs)"
+W_ATAN = "atan's interval dispatch k = 4|x| + 1/4 computed in double-double arithmetic selects exactly the interval of the exact |x| (breakpoints 7/16, 11/16, 19/16, 39/16) for every valid x of the window"
+W_POWF = "powf's integrality test and parity selection for a negative base (parity from the low word when it has an integer part) equals the parity of the exact exponent for every valid y of the window"
 W_CMP = "lexicographic comparison of normalised pairs == comparison of exact values, abs, on all valid pairs of a window"
 
 PLAN = {
@@ -127,7 +129,7 @@ PLAN = {
     "C14": {
         "level": "exploration",
         "rule": RULE_TRACE + "; exp/exp2/exp_m1/powf against rigorous ball enclosures (Taylor series with explicit remainder, argument reduction with an enclosure of ln 2) computed in TLA+; stratified over every entry of the exp(n/128)-1, exp(1/2)^n, exp(16)^n tables and both sides of each range switch",
-        "models": [MC("MC_P4_expflow.cfg", W_EXPFLOW), MC("MC_P5_expflow.cfg", W_EXPFLOW, "thorough")],
+        "models": [MC("MC_P4_expflow.cfg", W_EXPFLOW), MC("MC_P4_powfflow.cfg", W_POWF), MC("MC_P5_expflow.cfg", W_EXPFLOW, "thorough"), MC("MC_P5_powfflow.cfg", W_POWF, "thorough")],
         "traces": [T("exps", (250, 5000), (14, 14))],
     },
     "C15": {
@@ -144,6 +146,7 @@ PLAN = {
     "C17": {
         "level": "exploration",
         "rule": RULE_TRACE + "; inverse functions are checked by monotone inversion through enclosures of sin/cos at r +- tolerance, with the branch/axis conventions as exact clauses",
+        "models": [MC("MC_P4_atanflow.cfg", W_ATAN), MC("MC_P5_atanflow.cfg", W_ATAN, "thorough")],
         "traces": [T("atrig", (160, 3000), (14, 14))],
     },
     "C18": {
